@@ -7,11 +7,14 @@ lock-step.  The universe is 3 peers (deterministic keys) x 3 addresses (two ``UD
 that a peer can own two addresses at once) x 2 services; the three LRU caches of the graph get sizes from
 {1, 2, 3, 500}.
 
-After EVERY operation the whole query surface is observed twice and compared with the model (``Run.full_check``).
-The caches that the queries mutate are saved before and restored after that observation, so the oracle itself never
-warms a cache: only the query operations *of the case* do (otherwise "query -> remove -> query" and "no query ->
-remove -> query" would be the same history).  A query operation of the case is executed twice (same answer
-required) and followed by the full check (no other answer may have changed).
+After EVERY operation the whole query surface is observed three times (``Run.full_check``): once with every lookup
+starting from the cache state the case left behind ("what would I be told if this were the first thing I ask now"),
+compared with the model; then twice in a row, each lookup seeing the caches the previous ones left, and every answer
+must stay what it was ("asking never changes the answer").  The caches that the queries mutate are saved before and
+put back after these observations, so the oracle itself never warms a cache: only the query operations *of the case*
+do (otherwise "query -> remove -> query" and "no query -> remove -> query" would be the same history).  A query
+operation of the case is executed twice (same answer required) and followed by the full check (no other answer may
+have changed).  Returned peers are compared by public key and by the addresses the returned Peer object carries.
 
 Every distinct kind of disagreement has its own violation key: which lookup, in which direction ("returns a peer
 the model removed" / "misses a peer the model has" / ...), and for stale peers which removal path the model took.
@@ -44,7 +47,7 @@ RULE = ("case = explicit op list over 3 peers x 3 addresses (2 UDPv4Address + 1 
         "snapshot -> fresh Network -> load_snapshot restart, load_snapshot of truncated / bit-flipped / garbage bytes, "
         "and every get_* query; 35% of the random ops come from query -> remove -> query -> re-add -> query templates. "
         "quick: <= 60 ops per case, thorough: <= 200. Before the random stream: every sequence of depth 5 (quick) / "
-        "6 (thorough) over two 8-op alphabets x cache sizes {500, 1}, in batches that share a 3-op prefix "
+        "6 (thorough) over two 8-op alphabets x cache sizes {500, 1, 2}, in batches of 8^3 continuations of a prefix "
         "(a batch counts one evaluation per executed sequence; extensions of a violating prefix are pruned). "
         "Non-trivial = the sequence contains a removal after a query; distinct = distinct sequence of op kinds.")
 COMPONENTS = {"real": ["ipv8.peerdiscovery.network.Network (all mutators, all get_* queries, snapshot/load_snapshot)",
@@ -60,10 +63,14 @@ ASSUMPTIONS = ["single-threaded use of Network (graph_lock is taken without cont
                "brought itself (never introduced by someone) may or may not be walkable once nobody owns them; the "
                "per-service walkable query is only held to: subset of known addresses, no address of a verified peer "
                "serving that service, must contain free addresses introduced through that service or by a verified "
-               "peer advertising it; get_introductions_from is only held to 'asking does not change answers'",
+               "peer advertising it",
                "removal forgets the peer's advertised services and the addresses of the Peer object passed to "
                "remove_peer (behaviour fixed by Network's docstrings and its unit tests)",
-               "peers are compared by public key (the statement is about who is verified, not which Peer object)"]
+               "returned peers are compared by public key and by the addresses the returned Peer object carries, not by "
+               "object identity; when several verified peers share an address, get_verified_by_address may return "
+               "any of them (also a different one when asked again)",
+               "get_introductions_from is executed and must not change other answers, but its own answer (a lazily "
+               "maintained cache by design) is not compared unless STRICT_INTRODUCTIONS is set"]
 REACH = ["lru_overflow", "query_then_remove_then_query", "readd_after_remove", "snapshot_roundtrip",
          "blacklist_refusal", "address_change", "shared_address", "promote_walkable_to_verified", "garbage_snapshot",
          "enum_sequences", "remove_other_object"]
@@ -281,14 +288,14 @@ ALPHABETS = {
         {"op": "restart"},
     ],
 }
-ENUM_PREFIX = 3
+ENUM_TAIL = 3      # a batch = all 8^3 continuations of one prefix
 
 
 def _enum_cases(depth: int, plan: list):  # noqa: ANN202
     n = 0
     for alphabet, size in plan:
         width = len(ALPHABETS[alphabet])
-        for prefix in itertools.product(range(width), repeat=min(ENUM_PREFIX, depth)):
+        for prefix in itertools.product(range(width), repeat=max(0, depth - ENUM_TAIL)):
             n += 1
             yield {"scenario": "enum", "seed": n, "knobs": {}, "sizes": [size] * 3, "alphabet": alphabet,
                    "depth": depth, "prefix": list(prefix), "ops": []}
@@ -442,12 +449,12 @@ class Run:
         self.sizes = sizes
         self.pks = [default_eccrypto.generate_key("curve25519").pub() for _ in range(N_PEERS)]
         self.kbin = [pk.key_to_bin() for pk in self.pks]
-        self.kidx = {b: i for i, b in enumerate(self.kbin)}
         self.addrs = [UDPv4Address(ip, port) if kind == "v4" else (ip, port) for kind, ip, port in ADDR_SPEC]
         self.aidx = {(ip, port): i for i, (_, ip, port) in enumerate(ADDR_SPEC)}
         self.services = [bytes([s + 1]) * 20 for s in range(N_SERVICES)]
         self.sidx = {s: i for i, s in enumerate(self.services)}
         self.askers = [Peer(pk, ("0.0.0.0", 0)) for pk in self.pks]   # only used as "which key?" query arguments
+        self.midx = {p.mid: i for i, p in enumerate(self.askers)}
         self.failing: dict = {}     # violation key -> op list that led to it
         self.labels = self._labels()
         self.thunks = self._thunks()
@@ -463,18 +470,20 @@ class Run:
         self.net = self.fresh_net()
         self.m = Model()
         self.diverged = False
-        self.hist: list = []
+        self.hist: list = []        # the ops applied to this graph
+        self.told: list = []        # the same, as text, with what they resolved to (which Peer object was passed)
         self.last_obj: dict = {}
         self.queried: set = set()               # ("k", k) / ("a", a) targets some query op of the case asked about
         self.queried_all = False
         self.removed_after_query: set = set()
         self.last_obs = None
+        self.culprit = None     # (asked, victim, answer before, answer after) when one lookup changed another's answer
 
     def viol(self, oracle: str, key: str, msg: str) -> None:
         if self.diverged:
             return
         self.diverged = True
-        hist = " ; ".join(describe(o) for o in self.hist)
+        hist = " ; ".join(self.told)
         if key not in self.failing:
             self.failing[key] = list(self.hist)
         self.c.violate(oracle, key, f"{msg}   [sizes={self.sizes} ops: {hist}]")
@@ -483,7 +492,7 @@ class Run:
         if peer is None:
             return None
         try:
-            return self.kidx.get(peer.public_key.key_to_bin(), "?")
+            return self.midx.get(peer.mid, "?")
         except Exception:  # noqa: BLE001
             return f"!{type(peer).__name__}"
 
@@ -534,14 +543,14 @@ class Run:
         for name in CACHES:
             d = getattr(self.net, name, None)
             if d is not None:
-                out.append((d, [(key, list(v) if isinstance(v, list) else v) for key, v in d.items()]))
+                out.append((name, type(d), [(key, list(v) if isinstance(v, list) else v) for key, v in d.items()]))
         return out
 
-    @staticmethod
-    def restore_caches(saved: list) -> None:
-        for d, items in saved:
-            d.clear()
-            d.update(items)
+    def restore_caches(self, saved: list) -> None:
+        # a new mapping with the saved content in the saved order (OrderedDict.update is slow pure Python)
+        net = self.net
+        for name, cls, items in saved:
+            setattr(net, name, cls(items))
 
     def cache_keys(self) -> list:
         return [set(getattr(self.net, name, ())) for name in CACHES]
@@ -621,9 +630,18 @@ class Run:
         if saved is None:
             return [fn() for fn in self.thunks]
         out = []
-        for fn in self.thunks:
+        last_walk_s = self.ix["walk_s"][-1][-1]
+        for i, fn in enumerate(self.thunks):
             self.restore_caches(saved)
             out.append(fn())
+            if i == last_walk_s and self.culprit is None:
+                # the per-service variants consult the advertised services: these must still be what they were
+                # (nothing restores them, so a change would falsify the rest of this observation)
+                for k, j in enumerate(self.ix["svcs_of"]):
+                    again = self.q_svcs_of(k)
+                    if again != out[j]:
+                        self.culprit = ("get_walkable_addresses(<service>)", self.labels[j], out[j], again)
+                        break
         return out
 
     # ------------------------------------------------------------ the oracle
@@ -800,6 +818,11 @@ class Run:
         for s, (i, _) in enumerate(ix["walk_s"]):
             self.judge_walk_s(s, obs[i])
 
+    def blame_culprit(self) -> None:
+        asked, victim, before, after = self.culprit
+        self.viol("asking_is_pure", f"asking_changes_answer_of_{victim.split('(')[0]}",
+                  f"{victim} answered {before} before {asked} was asked and {after} right after it")
+
     def differs(self, o1: list, o2: list) -> int | None:
         """Index of the most basic lookup that answered differently in two observations of the same state."""
         best = None
@@ -826,6 +849,9 @@ class Run:
         saved = self.save_caches()
         try:
             obs1 = self.observe(saved)
+            if self.culprit is not None:
+                self.blame_culprit()
+                return
             if op["op"] in QUERY_OPS and self.last_obs is not None:
                 i = self.differs(self.last_obs, obs1)
                 if i is not None:
@@ -844,6 +870,9 @@ class Run:
             return
         finally:
             self.restore_caches(saved)
+        if self.culprit is not None:
+            self.blame_culprit()
+            return
         i = self.differs(obs1, obs2)
         if i is not None:
             self.viol("asking_is_pure", f"asking_changes_answer_of_{self.names[i]}",
@@ -859,7 +888,7 @@ class Run:
         self.c.world.trace.event("state", None, len(self.hist), hash_obs(obs1))
 
     # ------------------------------------------------------------ operations
-    def apply(self, op: dict, check: bool = True) -> None:  # noqa: C901, PLR0912, PLR0915
+    def apply(self, op: dict, check: bool = True, keep_obs: bool = False) -> None:  # noqa: C901, PLR0912, PLR0915
         if op["op"] == "reset":
             self.reset()
             return
@@ -867,6 +896,7 @@ class Run:
             return
         c, m = self.c, self.m
         self.hist.append(op)
+        self.told.append(describe(op))
         m.refused = None
         o = op["op"]
         before = self.cache_keys()
@@ -889,10 +919,12 @@ class Run:
                 k = op["k"]
                 if op.get("fresh") or k not in m.obj:
                     peer = self.Peer(self.pks[k], self.addrs[op.get("a", 0)])
+                    self.told[-1] = f"rm_peer(Peer(k{k},A{op.get('a', 0)}))"
                     if k in m.ver:
                         c.probe("remove_other_object")
                 else:
                     peer = m.obj[k]
+                    self.told[-1] = f"rm_peer(k{k}: the verified object)"
                 passed = self.peer_addrs(peer)
                 self.net.remove_peer(peer)
                 if m.remove_peer(k, passed):
@@ -911,6 +943,8 @@ class Run:
                         c.probe("address_change")
                     m.ver[k][cls] = op["a"]
                     m.known.setdefault(op["a"], [None, None, "self"])
+                else:
+                    self.told[-1] += "[not verified: skipped]"
             elif o == "bl_addr":
                 if self.addrs[op["a"]] not in self.net.blacklist:
                     self.net.blacklist.append(self.addrs[op["a"]])
@@ -944,6 +978,12 @@ class Run:
             c.probe("shared_address")
         if check:
             self.full_check(op)
+        elif keep_obs:
+            # this state was checked in an earlier run of the same prefix; only remember its answers
+            saved = self.save_caches()
+            self.last_obs = self.observe(saved)
+            self.restore_caches(saved)
+            self.culprit = None
         else:
             self.last_obs = None
 
@@ -951,6 +991,8 @@ class Run:
         k = op["k"]
         peer = self.make_peer(k, op["a"], bool(op.get("reuse")))
         passed = self.peer_addrs(peer)
+        if op.get("reuse"):
+            self.told[-1] = f"add(k{k}: last Peer object used for it, addresses {sorted(passed.values())})"
         free_known = [a for a in passed.values() if a in self.m.known and not self.m.owners(a)]
         self.net.add_verified_peer(peer)
         how = self.m.add(k, passed, peer)
@@ -1049,9 +1091,9 @@ class Run:
         if bad is None and (fresh.verified_peers or any(fresh.get_verified_by_address(a) for a in self.addrs)):
             bad = ("snapshot_roundtrip_verified_peers", "a fresh graph has verified peers after load_snapshot()")
         was = list(m.ver)
-        hist, last_obj = self.hist, self.last_obj
+        hist, told, last_obj = self.hist, self.told, self.last_obj
         self.reset()
-        self.hist, self.last_obj = hist, last_obj
+        self.hist, self.told, self.last_obj = hist, told, last_obj
         self.net = fresh
         for k in was:
             self.m.why[k] = "restart"
@@ -1120,7 +1162,8 @@ def _run_enum(c: Case, run: Run, case: dict) -> int:
         executed += 1
         # the steps shared with the previous sequence were checked there (checking restores the caches)
         for i, x in enumerate(seq):
-            run.apply(alpha[x], check=i >= common)
+            run.apply(alpha[x], check=i >= common,
+                      keep_obs=i == common - 1 and alpha[seq[i + 1]]["op"] in QUERY_OPS)
             if run.diverged:
                 bad = seq[:i + 1]
                 prev = ()
